@@ -10,7 +10,9 @@ import time
 from typing import Any, Dict, List, Optional
 
 VERIF = os.path.dirname(os.path.dirname(os.path.abspath(__file__)))
-EVIDENCE_DIR = os.path.join(VERIF, "evidence")
+# (the override serves the regression tools, which evaluate scratch copies of the repository in parallel; the registered
+# commands never set it)
+EVIDENCE_DIR = os.environ.get("CSA_EVIDENCE_DIR") or os.path.join(VERIF, "evidence")
 REPLAY_DIR = os.path.join(EVIDENCE_DIR, "replay")
 KNOWN_FILE = os.path.join(VERIF, "KNOWN_FINDINGS.txt")
 
